@@ -201,6 +201,29 @@ class ExprCanon(ast.NodeTransformer):
             return node.left
         if isinstance(node.op, ast.Add) and isinstance(node.left, ast.Constant) and isinstance(node.left.value, int) and not isinstance(node.left.value, bool) and node.left.value == 0 and _certainly_int(node.right):
             return node.right
+        # 'text %s and %r' % (a, b)  ->  f'text {a} and {b!r}'   (only %s / %r / %d / %% with plain operands; %d of an int is str())
+        if isinstance(node.op, ast.Mod) and isinstance(node.left, ast.Constant) and isinstance(node.left.value, str):
+            import re as _re
+            fmt = node.left.value
+            specs = _re.findall(r"%(?:%|[srd])|%.", fmt)
+            if specs and all(x in ("%s", "%r", "%%") for x in specs):
+                args = list(node.right.elts) if isinstance(node.right, ast.Tuple) else [node.right]
+                n_args = sum(1 for x in specs if x != "%%")
+                if len(args) == n_args and not any(isinstance(a_, (ast.Starred, ast.Dict, ast.Tuple)) for a_ in args) and (isinstance(node.right, ast.Tuple) or isinstance(node.right, (ast.Name, ast.Constant, ast.Subscript, ast.Attribute, ast.Call)) and n_args == 1 and not (isinstance(node.right, ast.Name))):
+                    vals, it = [], iter(args)
+                    pos = 0
+                    for m_ in _re.finditer(r"%(?:%|[sr])", fmt):
+                        lit = fmt[pos:m_.start()]
+                        if lit:
+                            vals.append(_loc(ast.Constant(value=lit), node))
+                        if m_.group(0) == "%%":
+                            vals.append(_loc(ast.Constant(value="%"), node))
+                        else:
+                            vals.append(_loc(ast.FormattedValue(value=next(it), conversion=ord("r") if m_.group(0) == "%r" else -1, format_spec=None), node))
+                        pos = m_.end()
+                    if fmt[pos:]:
+                        vals.append(_loc(ast.Constant(value=fmt[pos:]), node))
+                    return self.visit(_loc(ast.JoinedStr(values=vals), node))
         # adjacent string pieces joined with +  ->  one (f-)string
         if isinstance(node.op, ast.Add):
             def pieces(e):
@@ -469,6 +492,12 @@ class ExprCanon(ast.NodeTransformer):
             if "length" in kw and "byteorder" in kw:
                 node.args = [kw["length"], kw["byteorder"]]
                 node.keywords = [k for k in node.keywords if k.arg not in ("length", "byteorder")]
+        # types.MappingProxyType(D) is a read-only view of D: every read of it is a read of D
+        if len(node.args) == 1 and not node.keywords and ((isinstance(f0, ast.Name) and f0.id == "MappingProxyType") or (isinstance(f0, ast.Attribute) and f0.attr == "MappingProxyType" and isinstance(f0.value, ast.Name) and f0.value.id == "types")):
+            return node.args[0]
+        # tuple([a, b]) / tuple((a, b)) is (a, b)
+        if isinstance(f0, ast.Name) and f0.id == "tuple" and len(node.args) == 1 and not node.keywords and isinstance(node.args[0], (ast.List, ast.Tuple)) and not any(isinstance(x, ast.Starred) for x in node.args[0].elts):
+            return _loc(ast.Tuple(elts=list(node.args[0].elts), ctx=ast.Load()), node)
         # typing.cast(T, e) is e
         if len(node.args) == 2 and not node.keywords and ((isinstance(f0, ast.Name) and f0.id in _CAST_NAMES[0]) or (isinstance(f0, ast.Attribute) and f0.attr == "cast" and isinstance(f0.value, ast.Name) and f0.value.id in _CAST_NAMES[1])):
             return node.args[1]
@@ -2604,6 +2633,25 @@ def _canon_stmt(s):
         s.body = canon_block(s.body)
         s.body = canon_block(_strip_tail_continue(s.body))
         s.orelse = canon_block(s.orelse)
+    elif isinstance(s, ast.With) and len(s.items) == 1 and s.items[0].optional_vars is None and isinstance(s.items[0].context_expr, ast.Call) and ast.unparse(s.items[0].context_expr.func) in ("suppress", "contextlib.suppress") and s.items[0].context_expr.args and not s.items[0].context_expr.keywords:
+        # with suppress(E1, E2): BODY  ==  try: BODY except (E1, E2): pass
+        excs = s.items[0].context_expr.args
+        typ = excs[0] if len(excs) == 1 else _loc(ast.Tuple(elts=list(excs), ctx=ast.Load()), s)
+        new_try = _loc(ast.Try(body=s.body, handlers=[_loc(ast.ExceptHandler(type=typ, name=None, body=[_loc(ast.Pass(), s)]), s)], orelse=[], finalbody=[]), s)
+        ast.fix_missing_locations(new_try)
+        return _canon_stmt(new_try)
+    elif isinstance(s, ast.With) and len(s.items) == 1 and isinstance(s.items[0].context_expr, ast.Call) and ast.unparse(s.items[0].context_expr.func) in ("nullcontext", "contextlib.nullcontext") and len(s.items[0].context_expr.args) <= 1 and not s.items[0].context_expr.keywords and (s.items[0].optional_vars is None or isinstance(s.items[0].optional_vars, ast.Name)):
+        # with nullcontext(x) as v: BODY  ==  v = x; BODY
+        it = s.items[0]
+        pre = []
+        if it.optional_vars is not None:
+            val = it.context_expr.args[0] if it.context_expr.args else _loc(ast.Constant(value=None), s)
+            pre = [_loc(ast.Assign(targets=[_loc(ast.Name(id=it.optional_vars.id, ctx=ast.Store()), s)], value=val), s)]
+        elif it.context_expr.args and not isinstance(it.context_expr.args[0], (ast.Name, ast.Constant)):
+            pre = [_loc(ast.Expr(value=it.context_expr.args[0]), s)]
+        shell = _loc(ast.If(test=_loc(ast.Constant(value=True), s), body=pre + list(s.body), orelse=[]), s)
+        ast.fix_missing_locations(shell)
+        return _canon_stmt(shell)
     elif isinstance(s, (ast.With, ast.AsyncWith)):
         _TRY_DEPTH[0] += 1
         try:
